@@ -3,7 +3,6 @@ import MythVerif.Proofs.WsQueueTsoTac
 namespace MythVerif.WsqTso
 open MythVerif.Wsq
 
-set_option maxHeartbeats 4000000 in
 theorem f_T_ptr3_ptl (s : St) (p : Pid) (e0 : Elem) (e) : Inv s → s.opc = .ptl e → s.lock = .thief p →
     s.bufT p = [.ptr (s.lb - 1) (some e0)] → s.tpc p = .tp3 e0 →
     Inv (applySto { s with bufT := upd s.bufT p [] } (.ptr (s.lb - 1) (some e0))) := by
@@ -11,7 +10,6 @@ theorem f_T_ptr3_ptl (s : St) (p : Pid) (e0 : Elem) (e) : Inv s → s.opc = .ptl
   simp only [applySto]
   tso_fastO h hopc [tp3, tp4, carryC]
 
-set_option maxHeartbeats 4000000 in
 theorem f_T_ptr3_cll (s : St) (p : Pid) (e0 : Elem) : Inv s → s.opc = .cll → s.lock = .thief p →
     s.bufT p = [.ptr (s.lb - 1) (some e0)] → s.tpc p = .tp3 e0 →
     Inv (applySto { s with bufT := upd s.bufT p [] } (.ptr (s.lb - 1) (some e0))) := by
